@@ -19,7 +19,8 @@ RULE = ("operation sequences (4-25 ops) over a pool of live values (str, ColorFm
         "[-len-3, len+3] or None / fixed_len / format(a, [[fill]align][width][s]) / tail_probe (rejected lookups behind the "
         "end, += of the last chunk's colour, lookups in the new part). Non-trivial = the sequence "
         "contains an index/slice of a text with >=2 colour runs, or a negative/out-of-range bound on such a text, "
-        "or a concatenation that merges same-coloured neighbours, or a += a; distinct by hash of the operation list.")
+        "or a concatenation that merges same-coloured neighbours, or a += a; distinct by hash of the operation list."
+        " Also: fill character = the text's own first character; texts repeating one character; join arguments as list / tuple / iterator / generator / map; tail_probe histories (see above).")
 ASSUMPTIONS = [
     "colour identity = the SGR state requested from the formatter; formatters meant to be 'the same colour' are built from identical arguments",
     "equality involving a bare *coloured* chunk with empty text is not judged (statement speaks of texts)",
